@@ -41,6 +41,18 @@ pub struct Case {
     pub chaos_level: u8,
     /// lane "panic": item whose processing panics (second one optional)
     pub panic_at: Vec<usize>,
+    /// false: the consumer drops the iterator right after its k-th item, while the background
+    /// threads are in mid-flight (no idle phase, no lookahead-while-idle measurement)
+    #[serde(default = "yes")]
+    pub idle_before_drop: bool,
+    /// (item, busy microseconds): slow items (chaos lane), so that workers are inside the
+    /// processing function when the drop happens
+    #[serde(default)]
+    pub slow: Vec<(usize, u32)>,
+}
+
+fn yes() -> bool {
+    true
 }
 
 /// generous bound: 4 * (threads + buffer) + 8. The current code needs at most 2 * threads + 1
@@ -98,10 +110,25 @@ impl Drop for MonSource {
 
 type BoxIt = Box<dyn Iterator<Item = u64> + Send>;
 
-fn build(stack: &Stack, src: MonSource, threads: u8, buffer: usize, panic_at: Vec<usize>) -> BoxIt {
+fn build(
+    stack: &Stack,
+    src: MonSource,
+    threads: u8,
+    buffer: usize,
+    panic_at: Vec<usize>,
+    slow: Vec<(usize, u32)>,
+) -> BoxIt {
     let f: text_utils::data::Pipeline<usize, u64> = Arc::new(move |x: usize| {
         if panic_at.contains(&x) {
             panic!("injected panic in the processing function at item {x}");
+        }
+        for (i, us) in &slow {
+            if *i == x {
+                let t = Instant::now();
+                while t.elapsed() < Duration::from_micros(*us as u64) {
+                    std::hint::spin_loop();
+                }
+            }
         }
         super::c05::tag(x)
     });
@@ -140,7 +167,8 @@ impl Prop for C09 {
     fn rule() -> &'static str {
         "fault point = (stack in {pipe, buffered, pipe+buffered}, W in 1..=4 (chaos: up to 16), \
          buffer size in {0,1,2,3,8}, k in 0..=8 (chaos: up to 40) items consumed before the consumer \
-         idles and then drops the iterator, upstream endless or just long enough); lanes sched \
+         drops the iterator, either after an idle phase (lookahead measured) or in mid-flight (chaos: \
+         with slow items around the drop point), upstream endless or just long enough); lanes sched \
          (controller-chosen interleavings at the verif schedule points, strategies as in C05) and \
          chaos (free running with seeded delays). Monitor inside the upstream iterator: at every \
          pull, pulled - consumed <= L while the consumer lives and pulled - pulled_at_drop <= L \
@@ -180,6 +208,8 @@ impl Prop for C09 {
                 sseed: rng.random(),
                 chaos_level: 0,
                 panic_at: vec![],
+                idle_before_drop: true,
+                slow: vec![],
             };
         }
         let stack = match rng.random_range(0..3) {
@@ -218,6 +248,8 @@ impl Prop for C09 {
                 sseed: rng.random(),
                 chaos_level: rng.random_range(0..=3),
                 panic_at,
+                idle_before_drop: true,
+                slow: vec![],
             };
         }
         let controlled = lane == "sched";
@@ -248,6 +280,15 @@ impl Prop for C09 {
             8 => Strategy::ConsumerFirst,
             _ => Strategy::Starve(rng.random_range(0..=threads)),
         };
+        let idle_before_drop = rng.random_bool(0.5);
+        let mut slow = vec![];
+        if !controlled && rng.random_bool(0.7) {
+            // slow items around the drop point: an earlier item slower than a later one exactly
+            // when the consumer goes away
+            for _ in 0..rng.random_range(1..=3) {
+                slow.push((k + rng.random_range(0..=(threads as usize + 2)), rng.random_range(50..4000u32)));
+            }
+        }
         Case {
             lane: lane.to_string(),
             stack,
@@ -259,6 +300,8 @@ impl Prop for C09 {
             sseed: rng.random(),
             chaos_level: rng.random_range(0..=4),
             panic_at: vec![],
+            idle_before_drop,
+            slow,
         }
     }
 
@@ -305,7 +348,7 @@ impl Prop for C09 {
             exceeded: exceeded.clone(),
             dropped: dropped.clone(),
         };
-        let it = build(&c.stack, src, c.threads, c.buffer, vec![]);
+        let it = build(&c.stack, src, c.threads, c.buffer, vec![], c.slow.clone());
         // consumer thread: take k items, idle until told, drop, finish
         let idle = Arc::new(AtomicBool::new(false));
         let go_drop = Arc::new(AtomicBool::new(false));
@@ -324,6 +367,7 @@ impl Prop for C09 {
             pulled.clone(),
         );
         let k = c.k;
+        let idle_first = c.idle_before_drop;
         let consumer = std::thread::Builder::new()
             .name("consumer".into())
             .spawn(move || {
@@ -344,6 +388,17 @@ impl Prop for C09 {
                             break;
                         }
                     }
+                }
+                if !idle_first {
+                    // drop in mid-flight: the drop is one more step of the consumer in the schedule
+                    s2.consumer_point(Pt::ConsBeforeDrop, n);
+                    dm2.store(pulled2.load(Ordering::SeqCst), Ordering::SeqCst);
+                    drop(it);
+                    itd2.store(true, Ordering::SeqCst);
+                    s2.consumer_point(Pt::ConsAfterDrop, n);
+                    s2.mark_exited(sched::CONSUMER);
+                    idle2.store(true, Ordering::SeqCst);
+                    return;
                 }
                 // idle: the controller must not wait for this thread any more
                 s2.mark_exited(sched::CONSUMER);
@@ -371,7 +426,8 @@ impl Prop for C09 {
                 &|| idle.load(Ordering::SeqCst) && dropped.load(Ordering::SeqCst),
                 &exceeded,
                 50_000,
-                3,
+                // quiescence is the expected outcome only when the consumer idles before the drop
+                if c.idle_before_drop { 3 } else { 30 },
             );
             steps += r1.steps;
             obs.distinct("interleavings", hash64(&r1.trace));
@@ -380,6 +436,9 @@ impl Prop for C09 {
                     if !idle.load(Ordering::SeqCst) {
                         // stuck before the consumer got its k items
                         verdict_deadlock = Some(format!("before the consumer idled: {d}"));
+                    } else if !c.idle_before_drop {
+                        // the drop already happened (mid-flight) and the rest can never exit
+                        verdict_deadlock = Some(format!("after the mid-flight drop: {d}"));
                     }
                 }
                 RunEnd::Finished | RunEnd::Aborted => {}
@@ -443,7 +502,9 @@ impl Prop for C09 {
             while !iter_dropped.load(Ordering::SeqCst) && t.elapsed() < Duration::from_secs(20) {
                 std::thread::sleep(Duration::from_micros(50));
             }
-            if controlled {
+            if controlled && !c.idle_before_drop {
+                // everything was driven to the end in the first (only) phase
+            } else if controlled {
                 s.clear_futile();
                 let r2 = sched::control_abortable(
                     &s,
@@ -552,7 +613,7 @@ impl Prop for C09 {
         }
         obs.distinct(
             "fault_points",
-            hash64(&(&c.stack, w, b, c.k, c.upstream.is_none())),
+            hash64(&(&c.stack, w, b, c.k, c.upstream.is_none(), c.idle_before_drop)),
         );
         obs.nontrivial_if(c.k >= 1 && (w >= 2 || b >= 1) && ahead > 0);
         obs.max("max_lookahead_seen", ahead as u64);
@@ -565,6 +626,8 @@ impl Prop for C09 {
         });
         obs.tag_if(c.upstream.is_none(), "endless-upstream");
         obs.tag_if(c.k == 0, "drop-before-first-item");
+        obs.tag(if c.idle_before_drop { "drop-after-idle-phase" } else { "drop-in-mid-flight" });
+        obs.tag_if(!c.slow.is_empty(), "slow-items-around-the-drop");
         obs.tag_if(ended_early.load(Ordering::SeqCst), "upstream-ended-before-k");
         obs.tag_if(b == 0 && with_buf, "buffer-size-0");
         obs.note(json!({
@@ -680,7 +743,7 @@ pub fn child(spec: &str) -> i32 {
     };
     // NOTE: no harness panic hook here: Pipe::new installs the repo's hook, which is the mechanism
     // under test
-    let it = build(&c.stack, src, c.threads, c.buffer, c.panic_at.clone());
+    let it = build(&c.stack, src, c.threads, c.buffer, c.panic_at.clone(), vec![]);
     let s2 = s.clone();
     std::thread::spawn(move || {
         // the consumer (main thread) registers itself with its first point
@@ -728,7 +791,7 @@ fn check_plain(c: &Case, obs: &mut Obs) {
         exceeded: exceeded.clone(),
         dropped: dropped.clone(),
     };
-    let mut it = build(&c.stack, src, c.threads, c.buffer, vec![]);
+    let mut it = build(&c.stack, src, c.threads, c.buffer, vec![], vec![]);
     let mut got = vec![];
     for _ in 0..c.k {
         match it.next() {
